@@ -18,7 +18,7 @@ What `ResponderRun` *assumes* — the projection glue, each clause named:
 pending attribute writes, all records interned in the table of record objects), `item` (the link item `query ty known qu` describes
 the question, the QU flag and the known answers; the registry holds the services the link trace shows registered — the C03 registry
 and the `reg` / `unreg` events are two views of one object), `outs` (every datagram of the history is a send of the link trace
-carrying those records, none with TTL 0), `purge` (the purge strikes only pointers of services unregistered at that instant),
+carrying those records, none with TTL 0 — for the blocks inside the window), `purge` (the purge strikes only pointers of services unregistered at that instant),
 `NoTC` (no truncated queries), `PurgeKeeps`, and `covers` (the history goes beyond the window: with `LoopAx` that is the liveness
 of the queue timers). -/
 namespace Zc.Bridge
@@ -80,7 +80,7 @@ structure ResponderRun (tr : Link.Trace) (endT : Int) (N : Naming) (ettl : Nat) 
     x.2.1 = .blk (.rx t addr port dataId size hasQu (.query p) seen draws) →
     ∃ ops qs kn, FromRegistry lower ettl tbl p ops qs kn ∧
       ∀ ty known qu, Link.Item.query ty known qu ∈ content dataId → ItemOf lower tr N ettl t hasQu ops qs kn ty known qu
-  outs : ∀ x ∈ rt, ∀ o ∈ x.2.2.outs, ∃ sd ∈ Link.sends tr, ∃ pk : Register.Pkt,
+  outs : ∀ x ∈ rt, x.2.1.time ≤ endT → ∀ o ∈ x.2.2.outs, ∃ sd ∈ Link.sends tr, ∃ pk : Register.Pkt,
     sd.h = N.host ∧ sd.t = x.2.1.time ∧ sd.dst = dstOfOut hostOf o ∧ sd.items = itemsOf lower N pk ∧ OutOfPkt lower tbl o pk ∧
     ∀ r ∈ pk.answers ++ pk.additionals, 0 < r.ttl ∧ inTbl lower tbl r = true
   purge : ∀ x ∈ rt, ∀ t W, x.2.1 = .purge t W → ∀ i ∈ W, ∀ r alias, tbl[i]? = some r → WfPtr r alias →
@@ -250,7 +250,7 @@ theorem fresh_sent (hR : ResponderRun lower tr endT N ettl tbl hostOf content c0
     (candVs_of_run lower hR hb0 hne2) hR.purgeKeeps hx hev hf hit hc rfl (by simp [Reply.suppresses]) hsp
     (by have := hR.covers; omega)
   obtain ⟨y, hy, hy1, hy2, o, ho, hcase⟩ := hans
-  obtain ⟨sd, hsd, pk, g1, g2, g3, g4, g5, g6⟩ := hR.outs y hy o ho
+  obtain ⟨sd, hsd, pk, g1, g2, g3, g4, g5, g6⟩ := hR.outs y hy (by omega) o ho
   have hpos : ∀ r ∈ pk.answers ++ pk.additionals, 0 < r.ttl := fun r hr => (g6 r hr).1
   have hin : ∀ r ∈ pk.answers ++ pk.additionals, inTbl lower tbl r = true := fun r hr => (g6 r hr).2
   obtain ⟨cm, cu⟩ := outOfPkt_covers lower g5
